@@ -21,7 +21,7 @@ def c02(tier, seed):
         {"type": "i2s", "name": "drive select", "spec": "Trace_Select",
          "cmd": ["drive", "select", "{seed}", q(tier, 150, 1500), "{trace}"]},
         # direct evaluation is also logged next to every evaluator query
-        {"type": "i2s", "name": "drive evaluator (direct leg)", "spec": "Trace_Evaluator",
+        {"type": "i2s", "name": "drive evaluator (direct leg)", "spec": "Trace_Evaluator", "cfg": "Trace_Evaluator_direct",
          "cmd": ["drive", "evaluator", "{seed}", q(tier, 100, 800), "{trace}"]},
     ]
 
@@ -73,6 +73,11 @@ def c16(tier, seed):
          "tag": "legacy", "expect_violation": "Contract"},
         {"type": "s2i", "kind": "evaluator", "tag": "nan",
          "mc": {"module": "MC_Evaluator", "constants": {"N": n, "M": m, "WithNaN": True, "Guard": True}, "tag": "nan"}},
+        {"type": "i2s", "name": "explore with NaN (implementation fixpoint)", "spec": "Trace_Evaluator",
+         "cmd": ["explore", "{seed}", q(tier, 4, 30), q(tier, 3, 4), "{trace}", "{work}/explore_nan.json", "nan"], "report": "{work}/explore_nan.json",
+         "heap": "6g"},
+        {"type": "i2s", "name": "bounded histories with NaN (hook-free)", "spec": "Trace_Evaluator",
+         "cmd": ["histories", q(tier, 3, 4), q(tier, 3, 3), "{trace}", "nan"], "heap": "6g"},
         {"type": "i2s", "name": "random sessions with NaN", "spec": "Trace_Evaluator",
          "cmd": ["drive", "evaluator", "{seed}", q(tier, 300, 3000), "{trace}"]},
         {"type": "i2s", "name": "evaluate_v with NaN items", "spec": "Trace_EvalV",
@@ -154,6 +159,22 @@ def c10(tier, seed):
               "cmd": ["drive", "quartic", str(seed * 1000 + k), 20000, "{trace}"], "min_tally": [0, 0, 2000, 500]} for k in range(1, 14)] if tier == "thorough" else [])
 
 
+def c11(tier, seed):
+    n, m = q(tier, (3, 3), (4, 4))
+    steps = [
+        {"type": "s2i", "kind": "pwint", "mc": {"module": "MC_IntegralIter", "constants": {"N": n, "M": m}, "workers": 4, "heap": "8g"}},
+        CALIB,
+        {"type": "i2s", "name": "drive pwint poly", "spec": "Trace_PwInt", "cmd": ["drive", "pwint", "{seed}", q(tier, 25, 300), "{trace}", "poly"],
+         "min_tally": [150, 60, 100, 0]},
+        {"type": "i2s", "name": "drive pwint log", "spec": "Trace_PwInt", "cmd": ["drive", "pwint", "{seed}", q(tier, 6, 40), "{trace}", "log"],
+         "min_tally": [40, 15, 25, 40]},
+    ]
+    if tier == "thorough":
+        steps += [{"type": "i2s", "name": "drive pwint log shard %d" % k, "spec": "Trace_PwInt",
+                   "cmd": ["drive", "pwint", str(seed * 1000 + k), 40, "{trace}", "log"], "min_tally": [40, 15, 25, 40]} for k in range(1, 10)]
+    return steps
+
+
 ARITH_ASSUME = [
     "libm ln within 1 ulp (glibc claims < 1 ulp)",
     "inputs whose partial terms or powers of x leave [2^-1000, 2^1000] are out of scope and skipped (counted by the tallies)",
@@ -166,6 +187,8 @@ ORDER_ASSUME = [
 ]
 
 PLANS = {
+    "C11": {"claim": "The knot-threading iterator is a TLA+ machine (one action per piece); over exact rationals TLC checks on every bounded well-formed list (duplicates in), piece set and knot: same shape, through the knot, continuity, piecewise antiderivative, F(t)=k0.y+integral (the integral defined independently as the sum of per-piece definite integrals over Select's partition) and the indefinite variant; all those cases are replayed bit-exactly on Piecewise<Poly2/5/7> through integral, indefinite, integral_iter and integral_iter_ref; random polynomial (degrees 0..7) and log-polynomial (degrees 0..8, incl. the quartic form) functions are judged by TLC with exact rationals and 230-bit ln/exp-tail on all those clauses, tolerances growing along the chain.",
+            "steps": c11, "parallel": 8, "rule": "s2i non-trivial = more than one piece; i2s tallies = [events judged, knot in first piece's domain, >= 2 pieces, log events]", "assumptions": ARITH_ASSUME + ["KAPPA = 256 per chain step, times the accumulated term magnitudes"]},
     "C09": {"claim": "That the recurrences q_n=p_n, q_i=p_i-(i+1)q_{i+1} solve q+q'=p (so v q(ln v) is an antiderivative of p(ln v)) and that the quartic special form solves G-G'=p(-x) is model-checked on the coefficient grid for every degree 0..8; on real executions TLC evaluates, with 230-bit ln and exponential tail and exact rational arithmetic, (i) every number of the returned form against the exact recurrence, (ii) F(knot.x)=knot.y both through the library's evaluate and through the form's meaning, (iii) F(b)-F(a) and the same for indefinite() against the exact antiderivative (fundamental theorem, no quadrature), at points far from 1 (1e-300 .. 1e18).",
             "steps": c09, "parallel": 8, "rule": "non-trivial = knot.x, a, b all different from 1 (where ln vanishes and the existing tests live)", "assumptions": ARITH_ASSUME + ["KAPPA = 256: tolerance 256*2^-53 times the construction's own term magnitudes"]},
     "C10": {"claim": "The quartic form's value k + v sum c_j x^j + u v x^5 R(x) is evaluated by the specification with ln and R to ~230 bits (series for |x|<=8, closed form with exact big rationals beyond; functional identities of both model-checked in MC_RealFns) and the real result must lie within 1e-12 times the sum of term magnitudes: every float within 4096 ulps of 1 and of both implementation switch points (located by bisection on the implementation's own x), x in [-40,40], extreme v; v=1 must return k exactly.",
